@@ -186,30 +186,24 @@ where
         J: ExactSizeIterator<Item = usize>,
     {
         let indices = indices.into_iter().collect::<Vec<_>>();
-        let min_index = *indices.first().unwrap();
         let leaves_vec = leaves.into_iter().collect::<Vec<_>>();
 
-        let max_index = start + leaves_vec.len();
-
-        let mut set_values = vec![Self::Hasher::default_leaf(); max_index - min_index];
-
-        for i in min_index..start {
-            if !indices.contains(&i) {
-                let value = self.get_leaf(i);
-                set_values[i - min_index] = value;
+        // Reject the whole batch before touching the tree
+        if start > self.capacity() || leaves_vec.len() > self.capacity() - start {
+            return Err(Report::msg("provided leaves do not fit in the tree"));
+        }
+        for i in 0..indices.len() {
+            if indices[i] >= self.capacity() {
+                return Err(Report::msg("index to remove exceeds set size"));
             }
         }
 
-        for i in 0..leaves_vec.len() {
-            set_values[start - min_index + i] = leaves_vec[i];
+        // Reset every removed position, then write the new leaves
+        for i in 0..indices.len() {
+            self.delete(indices[i])?;
         }
 
-        for i in indices {
-            self.cached_leaves_indices[i] = 0;
-        }
-
-        self.set_range(start, set_values.into_iter())
-            .map_err(|e| Report::msg(e.to_string()))
+        self.set_range(start, leaves_vec.into_iter())
     }
 
     // Sets a leaf at the next available index
